@@ -357,3 +357,171 @@ def check_map(run, tree, aspects=("slots", "rendered", "geometry", "inputs"), de
                        "a second map with the same resolution dict inherits the derived depth resolution of the first", nontrivial=False)
         except ERR as e:
             run.unresolved("%s[%s]" % (MAP, label), fi.where(), "cannot fold: %s" % e)
+
+
+# =============================================================================== reach of every pre-selection mask
+class NonLinear(Exception):
+    pass
+
+
+def cs_coeff(o):
+    """numeric coefficient of the cell size CS in an expression that is affine in it (row selections are transparent)"""
+    if isinstance(o, (int, float)) or o is None:
+        return 0.0
+    if isinstance(o, str):
+        return 1.0 if o == "CS" else 0.0
+    if isinstance(o, QT):
+        return 0.0
+    if isinstance(o, tuple) and o:
+        h = o[0]
+        if h == "idx" and len(o) == 3:
+            return cs_coeff(o[1])
+        if h in ("sc", "num", "arange", "zeros", "qty", "sel#"):
+            return 0.0
+        if h == "op" and len(o) == 4:
+            op, a, b = o[1], o[2], o[3]
+            if op in ("__add__", "__radd__", "__iadd__"):
+                return cs_coeff(a) + cs_coeff(b)
+            if op in ("__sub__", "__isub__"):
+                return cs_coeff(a) - cs_coeff(b)
+            if op == "__rsub__":
+                return cs_coeff(b) - cs_coeff(a)
+            if op == "__neg__":
+                return -cs_coeff(a)
+            if op in ("__mul__", "__rmul__", "__imul__"):
+                return _mul(a, b)
+            if op in ("__truediv__", "__itruediv__"):
+                if isinstance(b, (int, float)) and b:
+                    return cs_coeff(a) / b
+                if cs_coeff(b) == 0.0 and cs_coeff(a) == 0.0:
+                    return 0.0
+                raise NonLinear("division by a non-constant")
+        if h == "+" and len(o) == 2 and isinstance(o[1], tuple):
+            return sum(cs_coeff(x) for x in o[1])
+        if h == "*" and len(o) == 2 and isinstance(o[1], tuple):
+            items = list(o[1])
+            withcs = [x for x in items if cs_coeff(x) != 0.0]
+            if not withcs:
+                return 0.0
+            if len(withcs) == 1 and all(_num(x) is not None for x in items if x is not withcs[0]):
+                c = cs_coeff(withcs[0])
+                for x in items:
+                    if x is not withcs[0]:
+                        c *= _num(x)
+                return c
+            raise NonLinear("the cell size is multiplied by a non-constant")
+        if h in ("+", "-") and len(o) == 3:
+            return cs_coeff(o[1]) + (cs_coeff(o[2]) if h == "+" else -cs_coeff(o[2]))
+        if h == "*" and len(o) == 3:
+            return _mul(o[1], o[2])
+        if h == "/" and len(o) == 3:
+            if isinstance(o[2], (int, float)) and o[2]:
+                return cs_coeff(o[1]) / o[2]
+        if h == "neg":
+            return -cs_coeff(o[1])
+        # any other node: fine if the cell size does not occur below it
+        if not any(x == "CS" for x in walk(o)):
+            return 0.0
+    raise NonLinear("the cell size occurs under %r" % (o[0] if isinstance(o, tuple) and o else o,))
+
+
+def _num(o):
+    if isinstance(o, (int, float)):
+        return float(o)
+    if isinstance(o, tuple) and o and o[0] == "num" and isinstance(o[1], (int, float)):
+        return float(o[1])
+    return None
+
+
+def _mul(a, b):
+    ca, cb = cs_coeff(a), cs_coeff(b)
+    na, nb = _num(a), _num(b)
+    if ca == 0.0 and cb == 0.0:
+        return 0.0
+    if na is not None:
+        return na * cb
+    if nb is not None:
+        return nb * ca
+    raise NonLinear("the cell size is multiplied by a non-constant")
+
+
+def mask_reach(o):
+    """[(atom text, k)] for a selection mask: k = coefficient of the cell size by which the threshold exceeds the distance"""
+    if isinstance(o, tuple) and o:
+        if o[0] == "raw" and len(o) == 3:
+            return mask_reach(o[1])
+        if o[0] in ("&",) and len(o) == 3:
+            return mask_reach(o[1]) + mask_reach(o[2])
+        if o[0] == "&" and len(o) == 2 and isinstance(o[1], tuple):
+            out = []
+            for x in o[1]:
+                out += mask_reach(x)
+            return out
+        if o[0] == "op" and len(o) == 4 and o[1] in ("__and__",):
+            return mask_reach(o[2]) + mask_reach(o[3])
+        cmpop = o[1] if o[0] == "op" and len(o) == 4 else o[0]
+        a, b = (o[2], o[3]) if o[0] == "op" and len(o) == 4 else (o[1], o[2]) if len(o) == 3 else (None, None)
+        if cmpop in ("__le__", "__lt__", "<=", "<"):
+            return [(cmpop, cs_coeff(b) - cs_coeff(a))]
+        if cmpop in ("__ge__", "__gt__", ">=", ">"):
+            return [(cmpop, cs_coeff(a) - cs_coeff(b))]
+    raise NonLinear("selection mask of an unknown form: %r" % (o[0] if isinstance(o, tuple) and o else o,))
+
+
+def check_mask_reach(run, tree):
+    """every mask that removes cells before the resampling keeps a cell whose centre is up to half its DIAGONAL away from the limit
+    (a rotated cell reaches that far along any direction)"""
+    import math
+    from .core_models import INTERN_REV
+    fi = tree.func(MAP)
+    run.analysed(fi)
+    need = 0.5 * math.sqrt(3)
+    for label, thick in (("thin", False), ("thick", True)):
+        construct = "%s::pre-selection-reach[%s]" % (MAP, label)
+        try:
+            try:
+                rec, out, layers, hooks = build(tree, thick, ("mean", "sum"), resolution={"x": 8, "y": 6})
+            except (Raised, ProgramRaised) as e:
+                run.violated(construct, fi.where(), "raises %s" % e, "map()")
+                continue
+            keys = []
+
+            def collect(o):
+                if isinstance(o, tuple) and len(o) == 2 and o[0] == "sel#":
+                    if o not in keys:
+                        keys.append(o)
+                        collect(INTERN_REV[o])
+                elif isinstance(o, tuple):
+                    for x in o:
+                        collect(x)
+            collect(origin_of(rec.kernel.get("cell_sizes")))
+            problems, n_atoms = [], 0
+            def is_mask(m):
+                return isinstance(m, tuple) and m and (m[0] in ("&", "<=", "<", ">=", ">", "raw") or (m[0] == "op" and len(m) == 4 and m[1] in (
+                    "__le__", "__lt__", "__ge__", "__gt__", "__and__")))
+            masks = []
+            for k in keys:
+                m = INTERN_REV[k]
+                if is_mask(m):
+                    masks.append(m)
+            # masks used directly as the index of a chained selection (not interned separately)
+            for o in list(INTERN_REV.values()) + [origin_of(rec.kernel.get("cell_sizes"))]:
+                for x in walk(o):
+                    if isinstance(x, tuple) and len(x) == 3 and x[0] == "idx" and is_mask(x[2]) and x[2] not in masks:
+                        masks.append(x[2])
+            for m in masks:
+                if False:
+                    continue
+                try:
+                    for cmpop, kk in mask_reach(m):
+                        n_atoms += 1
+                        if kk < need - 1e-9:
+                            problems.append("a mask keeps cells only within %.3g cell sizes of its limit (required >= %.3g = half the diagonal of a 3-D cell)" % (kk, need))
+                except NonLinear as e:
+                    raise Unsupported(str(e))
+            if n_atoms == 0:
+                raise Unsupported("no pre-selection mask found in the fold")
+            run.ob(construct, not problems, fi.where(), "; ".join(problems[:2]) or "%d mask comparisons, each widened by at least half a cell diagonal" % n_atoms,
+                   "cells that still overlap the window or plane (rotated views, cells straddling the border) are discarded: the pixels they cover are masked")
+        except ERR as e:
+            run.unresolved(construct, fi.where(), "cannot fold: %s" % e)
